@@ -185,6 +185,9 @@ def scalar_and_sim_cases(ctx, rng, scale, failures, dist):
             try:
                 if kind == 'rfsq':
                     levels = rng.choice([[3, 3], [5, 4], [8, 5, 5], [2, 3]])
+                    if nq == 8:
+                        levels = rng.choice([[40, 40], [256], [24, 3]])       # large level counts x deep stacks: (L - 1) ** k passes 2 ** 31
+                        dist['rfsq_large_levels_deep'] = dist.get('rfsq_large_levels_deep', 0) + 1
                     proj = ci % 3 == 2
                     q = ResidualFSQ(levels=levels, num_quantizers=nq, dim=len(levels) + (2 if proj else 0))
                     dim = len(levels) + (2 if proj else 0)
